@@ -63,10 +63,20 @@ def channels(f: Func) -> Tuple[List[Aff], Dict[str, str]]:
                 origins[k] = src(it)
     gp = [a.arg for a in f.node.args.args]
 
-    def leaf(e: ast.AST) -> Optional[Aff]:
+    def leaf(e: ast.AST, _depth=[0]) -> Optional[Aff]:
         s = src(e)
         if isinstance(e, ast.Name) and e.id in env:
             return env[e.id]
+        if isinstance(e, ast.Name) and _depth[0] < 6:
+            d = w.single_def(e.id)
+            if d is not None and d[0] == 'value':
+                _depth[0] += 1
+                try:
+                    return aff_of(d[1], leaf)
+                except NonAffine:
+                    return None
+                finally:
+                    _depth[0] -= 1
         if isinstance(e, ast.Call) and isinstance(e.func, ast.Attribute) and \
                 e.func.attr == 'type_index' and not e.args:
             return Aff.sym('t')
@@ -418,14 +428,16 @@ def run(index: RepoIndex, rep) -> None:
              floor=4)
     rep.rule('C15.R5', 'agent vector: normalised coordinates in [-1, 1], one-hot index <= 5',
              floor=3)
-    rep.rule('C15.R6', 'gym spaces are Boxes over the representation bounds (C20.R5)', floor=1)
+    rep.rule('C15.R6', 'gym spaces are Boxes over the representation bounds and follow a '
+             'representation switch (C20.R3, C20.R5)', floor=5)
     rep.rule('C15.R7', 'membership predicates check colours (C01.R3)', floor=20)
     per_object_bounds(index, rep, 'C15.R1')
     type_sets(index, rep, 'C15.R2')
     shapes_dtypes(index, rep, 'C15.R3', 'C15.R4')
     agent_vector(index, rep, 'C15.R5', 'C15.R4')
-    from .c20 import check_gym_space
+    from .c20 import check_gym_space, representation_switch
     check_gym_space(index, rep, 'C15.R6')
+    representation_switch(index, rep, 'C15.R6')
     from .c01 import membership
     membership(index, rep, 'C15.R7')
     # Space checks dtype compatibility on construction
